@@ -6,6 +6,7 @@ import (
 	"go/types"
 	"os"
 	"path/filepath"
+	"runtime/debug"
 	"sort"
 	"strings"
 	"sync"
@@ -50,6 +51,9 @@ func (E *Engine) buildVCs(key string) (res *FuncResult) {
 				res.Err = "spec error: " + e.msg
 			default:
 				res.Err = fmt.Sprintf("engine error: %v", r)
+				if os.Getenv("GOVC_STACK") != "" {
+					fmt.Fprintf(os.Stderr, "%s\n", debug.Stack())
+				}
 			}
 		}
 		res.Obls = fx.obls
@@ -74,6 +78,11 @@ func (E *Engine) buildVCs(key string) (res *FuncResult) {
 	fr := &Frame{fx: fx, fn: f, key: key, vals: map[ssa.Value]Val{}, contract: ct, params: map[string]Val{}, top: true}
 	fr.entry = st.clone()
 	fx.rootAlloc = st.get(fx, "G|alloc")
+	// no lock-protected data has been accessed yet by this execution
+	fx.regComp("R|sect", "(Array Int Int)")
+	st.set("R|sect", "((as const (Array Int Int)) (- 1))")
+	fx.regComp("R|aops", "(Array Int Int)")
+	st.set("R|aops", "((as const (Array Int Int)) 0)")
 	// priv(a): array a was allocated during the current entry-point execution. Everything allocated from
 	// here on is; a function whose contract does not mention private(...) is treated as an entry point
 	// itself (closed world: nothing that existed at its entry is private).
@@ -293,7 +302,11 @@ func (fr *Frame) computeAllowed(mods []string, entry *State) map[string]*frameAl
 		done := false
 		for i, p := range parts[1:] {
 			if ptr := derefType(ctT); ptr != nil {
-				root, ref, path, ctT = ptr, cur.L[0], "", ptr
+				if cur.Loc != nil && len(cur.L) == 0 {
+					root, ref, path, ctT = cur.Loc.RootT, cur.Loc.Ref, cur.Loc.Path, ptr
+				} else {
+					root, ref, path, ctT = ptr, cur.L[0], "", ptr
+				}
 			}
 			if p == "*" {
 				for _, k := range fr.typeComps("H|", root, path, ctT) {
